@@ -402,6 +402,67 @@ def check_native_path_bytes(chk, tu):
     return n
 
 
+def check_error_translation(chk, tu):
+    """R14.13: "... performs the host operation with its error code translated": every path import, evaluated with the host call failing
+    and errno set to each of a family of values (the ones the operations produce: ENOENT, EEXIST, EACCES, ENOTDIR, ENOTEMPTY, ...),
+    returns exactly the witx number of that errno - no errno is swallowed (reported as success) or replaced on the way"""
+    eps = W.entry_points(tu)
+    macros = W.host_macros(('E',))
+    names = ['EEXIST', 'ENOTEMPTY', 'ENOENT'] if chk.tier != 'thorough' else \
+        ['ENOENT', 'EEXIST', 'ENOTEMPTY', 'EACCES', 'ENOTDIR', 'EISDIR', 'EIO', 'ELOOP', 'ENAMETOOLONG', 'EXDEV', 'EROFS', 'EBUSY', 'EPERM', 'EINVAL']
+    n = 0
+    for imp, (native, ppos, triples) in sorted(PATH_IMPORTS.items()):
+        for gen, f in sorted(eps[imp].items()):
+            params = astdb.fn_params(f)[1:]
+            fd_value = {}
+            for k, (fi, pi, li) in enumerate(triples):
+                fd_value[fi] = DIR_SLOTS[k][0]
+            state = {}
+            st2 = {}
+            it = None
+            for en in names:
+                if en not in macros or en not in O.HOST_ERRNO:
+                    continue
+                want = O.ERRNO_NUM[O.HOST_ERRNO[en]]
+
+                def mk(it_, st):
+                    args = [unk('instance')]
+                    for i, p_ in enumerate(params):
+                        nm = p_.get('name', '')
+                        t = tu.desugar(astdb.qtype(p_))
+                        if i in fd_value:
+                            args.append(fd_value[i])
+                        elif 'lags' in nm or 'ights' in nm:
+                            args.append(0)
+                        else:
+                            args.append(unk('p%d' % i, t))
+                    return args
+                if it is None:
+                    it = W.make_interp(tu, st2, path_leafs(state), max_paths=3000)
+
+                def setup(en=en):
+                    st2.clear()
+                    state.clear()
+                    W.seed_globals(it, tu, st2, two_dir_table(), errno_value=macros[en])
+                    return (f['name'], mk(it, st2), {})
+                bad = None
+                seen = 0
+                for p in it.explore(setup):
+                    if p.aborted or not _native_failed(p, (native,)):
+                        continue
+                    seen += 1
+                    if p.ret != want and bad is None:
+                        bad = p.ret
+                if not seen:
+                    continue
+                n += 1
+                chk.expect(bad is None, 'R14.13', '%s/%s:%s' % (gen, imp, en),
+                           '%s: when %s() fails with %s (%d) the import returns %r; the witx number of %s is %d - the failure of the host '
+                           'operation is %s' % (imp, native, en, macros[en], bad, O.HOST_ERRNO[en], want,
+                                                'reported as success' if bad == 0 else 'reported as another error'), imp + ':error-translation')
+    return n
+
+
 def check_follow_flag(chk, tu):
     """R14.11: path_filestat_get with the symlink-follow lookup flag set describes the file the link points to: the host operation is
     stat() (following), never lstat().  (With the flag clear the specification asks for lstat; upstream always follows - a documented
@@ -879,6 +940,8 @@ def run(chk):
     # R14.10: the type byte of a directory entry: host mode word -> witx filetype, for every host S_IF* kind (rule shared with C12 R12.3)
     c12.check_filetype_table(chk, tu, rule='R14.10')
     chk.floor('R14.10', 25)
+    check_error_translation(chk, tu)
+    chk.floor('R14.13', 30)
     check_native_path_bytes(chk, tu)
     chk.floor('R14.12', 90)
     chk.floor('R14.9', 4)
